@@ -430,7 +430,11 @@ func c13Run(c c13Case, r *hx.Rec) error {
 			return fmt.Errorf("%s: link name/type %q/%q", c.Mode, link.Name, link.Type)
 		}
 		if c.Mode == "run" {
-			if rv, _ := link.ByProducts["return-value"].(float64); int(rv) != c.Exit {
+			if rv, _ := link.ByProducts["return-value"].(float64); int(rv) == 95 && c.Exit != 95 {
+				// the emit helper could not carry out an operation of the script on this tree (e.g. appending to
+				// a symlink loop) and gave up with its own status 95: the exit status is C14's subject, not this check's
+				r.Label("script-not-applicable")
+			} else if int(rv) != c.Exit {
 				return fmt.Errorf("run: return-value %v, command exited with %d", link.ByProducts["return-value"], c.Exit)
 			}
 			if !reflect.DeepEqual(link.Command, args) {
